@@ -2,21 +2,27 @@
 // /repo/cameleon/src/camera.rs driven over a recording fake DeviceControl + PayloadStream.
 //
 // One case per stdin line:
-//   cam <n> <call>{n} <m> (<call index> <op index>){m}
+//   cam <n> <call>{n} <m> (<call index> <op index> <fault class>){m}
 // calls:  0 open | 3 stop_streaming | 4 close | 5 params access (params_ctxt + TLParamsLocked.value)
 //         10+cap start_streaming(cap) | 20+v load_context, the device serves XML variant v
 //         v = t + 3*s + 9*p with t/s/p in {0 good, 1 missing, 2 wrong interface} for TLParamsLocked /
 //         AcquisitionStart / AcquisitionStop; v = 27: the device serves text that is not a GenApi document.
 // failure plan: the <op index>-th fallible fake operation (0-based, counted per call, in execution
-// order) of call <call index> returns an Io error WITHOUT having any effect.
+// order; EVERY invocation of a fake method counts, so a repeated access is a second operation) of
+// call <call index> returns an error of the given fault class WITHOUT having any effect.
+// fault class k: DeviceControl methods -> ControlError  0 Io 1 Timeout 2 Disconnected 3 Busy 4 NotOpened
+//                                                        5 InvalidData 6 InvalidDevice 7 BufferTooSmall
+//                PayloadStream methods -> StreamError    0 Io 1 Timeout 2 Disconnected 3 ReceiveError 4 SendError
+//                                                        5 InvalidPayload 6 Poisoned 7 BufferTooSmall
 // Fallible fake operations = every DeviceControl / PayloadStream method the camera calls:
 //   ctrl.open ctrl.close ctrl.genapi ctrl.enable_streaming ctrl.disable_streaming ctrl.read ctrl.write
 //   strm.open strm.close strm.start_streaming_loop strm.stop_streaming_loop
 // One result line per case: 0 then per call
-//   <res> <failed op code or 0> <ops attempted> <k> <effect>{k} <value or -1> <flags>
-// res: 0 Ok | 2 panic | 10 Control(Io) 11 Stream(Io) 12 Stream(InStreaming) 13 GenApiContextMissing
-//      14 InvalidGenApiXml 15 GenApiError::Device 16 GenApiError other 17 Control(InvalidData)
-//      18 Control other 19 Stream other
+//   <res> <failed op code or 0> <a> <attempted op code>{a} <k> <effect>{k} <value or -1> <flags>
+//   attempted op codes: every invocation of a fake method during the call, in order (the device log)
+// res: 0 Ok | 2 panic | 12 Stream(InStreaming) 13 GenApiContextMissing 14 InvalidGenApiXml
+//      16 GenApiError other than Device | 100+k ControlError of class k | 200+k StreamError of class k |
+//      300+k GenApiError::Device carrying a ControlError of class k | 399 GenApiError::Device other
 // effect codes: 1 CtrlOpen 2 StrmOpen 3 GenApiFetch 4 EnableStreaming 5 SetTLParamsLocked(1)
 //   6 SetTLParamsLocked(0) 7 AcquisitionStart 8 AcquisitionStop 9 LoopStart 10 LoopStop
 //   11 DisableStreaming 12 CtrlClose 13 StrmClose 15 read of the TLParamsLocked register
@@ -55,20 +61,23 @@ struct World {
     effects: Vec<i128>,
     neff: i128,
     nops: i128,
-    fail: Vec<i128>,
+    fail: Vec<(i128, i128)>,
+    attempts: Vec<i128>,
     failed: i128,
 }
 
 impl World {
-    // returns true when this operation is planned to fail
-    fn op(&mut self, code: i128) -> bool {
+    // returns the fault class when this operation is planned to fail
+    fn op(&mut self, code: i128) -> Option<i128> {
         let k = self.nops;
         self.nops += 1;
-        if self.fail.contains(&k) {
-            self.failed = code;
-            true
-        } else {
-            false
+        self.attempts.push(code);
+        match self.fail.iter().find(|p| p.0 == k) {
+            Some(p) => {
+                self.failed = code;
+                Some(p.1)
+            }
+            None => None,
         }
     }
     fn eff(&mut self, e: &[i128]) {
@@ -77,11 +86,54 @@ impl World {
     }
 }
 
-fn cio() -> ControlError {
-    ControlError::Io(anyhow::Error::msg("planned"))
+fn cerr(k: i128) -> ControlError {
+    match k {
+        1 => ControlError::Timeout,
+        2 => ControlError::Disconnected,
+        3 => ControlError::Busy,
+        4 => ControlError::NotOpened,
+        5 => ControlError::InvalidData("planned".into()),
+        6 => ControlError::InvalidDevice("planned".into()),
+        7 => ControlError::BufferTooSmall,
+        _ => ControlError::Io(anyhow::Error::msg("planned")),
+    }
 }
-fn sio() -> StreamError {
-    StreamError::Io(anyhow::Error::msg("planned"))
+fn serr(k: i128) -> StreamError {
+    match k {
+        1 => StreamError::Timeout,
+        2 => StreamError::Disconnected,
+        3 => StreamError::ReceiveError("planned".into()),
+        4 => StreamError::SendError("planned".into()),
+        5 => StreamError::InvalidPayload("planned".into()),
+        6 => StreamError::Poisoned("planned".into()),
+        7 => StreamError::BufferTooSmall,
+        _ => StreamError::Io(anyhow::Error::msg("planned")),
+    }
+}
+fn cclass(e: &ControlError) -> i128 {
+    match e {
+        ControlError::Io(_) => 0,
+        ControlError::Timeout => 1,
+        ControlError::Disconnected => 2,
+        ControlError::Busy => 3,
+        ControlError::NotOpened => 4,
+        ControlError::InvalidData(_) => 5,
+        ControlError::InvalidDevice(_) => 6,
+        ControlError::BufferTooSmall => 7,
+    }
+}
+fn sclass(e: &StreamError) -> i128 {
+    match e {
+        StreamError::Io(_) => 200,
+        StreamError::Timeout => 201,
+        StreamError::Disconnected => 202,
+        StreamError::ReceiveError(_) => 203,
+        StreamError::SendError(_) => 204,
+        StreamError::InvalidPayload(_) => 205,
+        StreamError::Poisoned(_) => 206,
+        StreamError::BufferTooSmall => 207,
+        StreamError::InStreaming => 12,
+    }
 }
 
 struct FakeCtrl(Rc<RefCell<World>>);
@@ -140,8 +192,8 @@ fn xml(variant: usize) -> String {
 impl DeviceControl for FakeCtrl {
     fn open(&mut self) -> ControlResult<()> {
         let mut w = self.0.borrow_mut();
-        if w.op(1) {
-            return Err(cio());
+        if let Some(k) = w.op(1) {
+            return Err(cerr(k));
         }
         w.ctrl_opened = true;
         w.eff(&[1]);
@@ -149,8 +201,8 @@ impl DeviceControl for FakeCtrl {
     }
     fn close(&mut self) -> ControlResult<()> {
         let mut w = self.0.borrow_mut();
-        if w.op(12) {
-            return Err(cio());
+        if let Some(k) = w.op(12) {
+            return Err(cerr(k));
         }
         w.ctrl_opened = false;
         w.eff(&[12]);
@@ -162,15 +214,15 @@ impl DeviceControl for FakeCtrl {
     fn read(&mut self, address: u64, buf: &mut [u8]) -> ControlResult<()> {
         let mut w = self.0.borrow_mut();
         if address == A_TL && buf.len() == 4 {
-            if w.op(15) {
-                return Err(cio());
+            if let Some(k) = w.op(15) {
+                return Err(cerr(k));
             }
             let v = w.tl;
             buf.copy_from_slice(&v.to_le_bytes());
             w.eff(&[15]);
         } else {
-            if w.op(91) {
-                return Err(cio());
+            if let Some(k) = w.op(91) {
+                return Err(cerr(k));
             }
             for b in buf.iter_mut() {
                 *b = 0;
@@ -193,8 +245,8 @@ impl DeviceControl for FakeCtrl {
             (A_STOP, 1) => 8,
             _ => 90,
         };
-        if w.op(code) {
-            return Err(cio());
+        if let Some(k) = w.op(code) {
+            return Err(cerr(k));
         }
         match code {
             5 => {
@@ -224,16 +276,16 @@ impl DeviceControl for FakeCtrl {
     }
     fn genapi(&mut self) -> ControlResult<String> {
         let mut w = self.0.borrow_mut();
-        if w.op(3) {
-            return Err(cio());
+        if let Some(k) = w.op(3) {
+            return Err(cerr(k));
         }
         w.eff(&[3]);
         Ok(xml(w.variant))
     }
     fn enable_streaming(&mut self) -> ControlResult<()> {
         let mut w = self.0.borrow_mut();
-        if w.op(4) {
-            return Err(cio());
+        if let Some(k) = w.op(4) {
+            return Err(cerr(k));
         }
         w.enabled = true;
         w.eff(&[4]);
@@ -241,8 +293,8 @@ impl DeviceControl for FakeCtrl {
     }
     fn disable_streaming(&mut self) -> ControlResult<()> {
         let mut w = self.0.borrow_mut();
-        if w.op(11) {
-            return Err(cio());
+        if let Some(k) = w.op(11) {
+            return Err(cerr(k));
         }
         w.enabled = false;
         w.eff(&[11]);
@@ -253,8 +305,8 @@ impl DeviceControl for FakeCtrl {
 impl PayloadStream for FakeStrm {
     fn open(&mut self) -> StreamResult<()> {
         let mut w = self.0.borrow_mut();
-        if w.op(2) {
-            return Err(sio());
+        if let Some(k) = w.op(2) {
+            return Err(serr(k));
         }
         w.strm_opened = true;
         w.eff(&[2]);
@@ -262,8 +314,8 @@ impl PayloadStream for FakeStrm {
     }
     fn close(&mut self) -> StreamResult<()> {
         let mut w = self.0.borrow_mut();
-        if w.op(13) {
-            return Err(sio());
+        if let Some(k) = w.op(13) {
+            return Err(serr(k));
         }
         w.strm_opened = false;
         w.eff(&[13]);
@@ -275,8 +327,8 @@ impl PayloadStream for FakeStrm {
         _ctrl: &mut dyn DeviceControl,
     ) -> StreamResult<()> {
         let mut w = self.0.borrow_mut();
-        if w.op(9) {
-            return Err(sio());
+        if let Some(k) = w.op(9) {
+            return Err(serr(k));
         }
         if w.alive {
             // what StreamHandle does; never reached through Camera (it checks the flag first)
@@ -289,8 +341,8 @@ impl PayloadStream for FakeStrm {
     }
     fn stop_streaming_loop(&mut self) -> StreamResult<()> {
         let mut w = self.0.borrow_mut();
-        if w.op(10) {
-            return Err(sio());
+        if let Some(k) = w.op(10) {
+            return Err(serr(k));
         }
         if w.alive {
             w.alive = false;
@@ -306,15 +358,14 @@ impl PayloadStream for FakeStrm {
 
 fn eclass(e: &CameleonError) -> i128 {
     match e {
-        CameleonError::ControlError(ControlError::Io(_)) => 10,
-        CameleonError::ControlError(ControlError::InvalidData(_)) => 17,
-        CameleonError::ControlError(_) => 18,
-        CameleonError::StreamError(StreamError::Io(_)) => 11,
-        CameleonError::StreamError(StreamError::InStreaming) => 12,
-        CameleonError::StreamError(_) => 19,
+        CameleonError::ControlError(c) => 100 + cclass(c),
+        CameleonError::StreamError(s) => sclass(s),
         CameleonError::GenApiContextMissing => 13,
         CameleonError::InvalidGenApiXml(_) => 14,
-        CameleonError::GenApiError(GenApiError::Device(_)) => 15,
+        CameleonError::GenApiError(GenApiError::Device(inner)) => match inner.downcast_ref::<ControlError>() {
+            Some(c) => 300 + cclass(c),
+            None => 399,
+        },
         CameleonError::GenApiError(_) => 16,
     }
 }
@@ -347,7 +398,7 @@ fn run_case(toks: &[&str]) -> Option<Vec<i128>> {
     let n = *nums.get(0)? as usize;
     let calls = nums.get(1..1 + n)?.to_vec();
     let m = *nums.get(1 + n)? as usize;
-    let plan = nums.get(2 + n..2 + n + 2 * m)?.to_vec();
+    let plan = nums.get(2 + n..2 + n + 3 * m)?.to_vec();
     let world = Rc::new(RefCell::new(World::default()));
     let info = CameraInfo {
         vendor_name: "V".into(),
@@ -363,10 +414,11 @@ fn run_case(toks: &[&str]) -> Option<Vec<i128>> {
             w.neff = 0;
             w.nops = 0;
             w.failed = 0;
+            w.attempts.clear();
             w.fail = plan
-                .chunks(2)
+                .chunks(3)
                 .filter(|p| p[0] == ci as i128)
-                .map(|p| p[1])
+                .map(|p| (p[1], p[2]))
                 .collect();
             if (20..=47).contains(&c) {
                 w.variant = (c - 20) as usize;
@@ -395,7 +447,8 @@ fn run_case(toks: &[&str]) -> Option<Vec<i128>> {
         let w = world.borrow();
         out.push(res);
         out.push(w.failed);
-        out.push(w.nops);
+        out.push(w.attempts.len() as i128);
+        out.extend_from_slice(&w.attempts);
         out.push(w.neff);
         out.extend_from_slice(&w.effects);
         out.push(val);
